@@ -148,11 +148,13 @@ def check_tensor_run(r, item, torch, entropy_regularized_policy_iteration, spec,
     if True:
         r.count('states')
         try:
+            # "integer reward tensors": on every fourth configuration the rewards are handed over with an integer dtype
+            rt = torch.from_numpy(rf.astype(np.int64)) if (cfg + prior_i) % 4 == 1 and (rf == np.round(rf)).all() else torch.from_numpy(rf)
             res = entropy_regularized_policy_iteration(
-                transition_matrix=torch.from_numpy(tf), reward_matrix=torch.from_numpy(rf), discount_rate=float(gamma),
+                transition_matrix=torch.from_numpy(tf), reward_matrix=rt, discount_rate=float(gamma),
                 entropy_weight=ew, n_planning_iters=budget, policy_prior=prior, force_nonzero_probabilities=force)
         except Exception as e:
-            r.violation('exception', {'error': repr(e)[:300], 'n_planning_iters': budget}, item)
+            r.violation('exception', {'error': repr(e)[:300], 'n_planning_iters': budget, 'reward_dtype': str(rt.dtype)}, item)
             return r
         if not res.converged:
             r.count('not_converged' if budget == 2000 else 'not_converged_within_tiny_budget')
